@@ -16,7 +16,7 @@ import pool as poolmod
 def worlds(tier, rng, real, classes, attrs=False, nmax=6):
     """graph-building scripts followed by a few universes over subsets of the vertices"""
     quick = tier == "quick"
-    for _ in range(250 if quick else 6000):
+    for _ in range(800 if quick else 6000):
         nv = rng.randint(1, nmax)
         lines = ["reset"]
         for i in range(nv):
